@@ -67,6 +67,7 @@ fn read_frame(s: &mut TcpStream) -> Option<(u64, Vec<u8>)> {
     s.read_exact(&mut h).ok()?;
     let total = u64::from_le_bytes(h[0..8].try_into().unwrap()) as usize;
     let id = u64::from_le_bytes(h[16..24].try_into().unwrap());
+    if total > (64 << 20) { return None; } // a request no fleet client sends: never trust a length with an allocation
     let mut rest = vec![0u8; total.saturating_sub(48)];
     s.read_exact(&mut rest).ok()?;
     let q = u64::from_le_bytes(h[24..32].try_into().unwrap()) as usize;
@@ -97,7 +98,15 @@ impl FakeNode {
                     Some(Ok((s, _))) => {
                         s.set_nonblocking(false).ok();
                         s.set_nodelay(true).ok();
-                        n.conns.lock().unwrap().push(s.try_clone().unwrap());
+                        // the node may have gone down between this accept and now (arm("refused") empties `conns` after it
+                        // has taken the listener away): a connection accepted across that moment goes down with the node
+                        let mut conns = n.conns.lock().unwrap();
+                        if n.listener.lock().unwrap().is_none() {
+                            let _ = s.shutdown(Shutdown::Both);
+                            continue;
+                        }
+                        conns.push(s.try_clone().unwrap());
+                        drop(conns);
                         let n2 = n.clone();
                         std::thread::spawn(move || n2.serve(s));
                     }
@@ -145,6 +154,8 @@ impl FakeNode {
                     return;
                 }
                 "silent" => { hung = true; /* never answer; keep reading */ }
+                // a node that never answers anything, on any connection, until re-armed
+                "silent_always" => { hung = true; *self.armed.lock().unwrap() = "silent_always".to_string(); }
                 "malformed" => {
                     let _ = s.write_all(&[0xAB; 64]);
                 }
@@ -430,11 +441,45 @@ pub fn broadcast(a: &Args) -> i32 {
             n += 1;
             out.push(&json!({"ev": "broadcast", "kind": kind,
                 "node_tags": (0..4).map(|i| (0..3).filter(|b| asg[i] >> b & 1 == 1).map(|b| tags_all[b]).collect::<Vec<_>>()).collect::<Vec<_>>(),
-                "requested": want, "result_nodes": keys, "all_ok": res.iter().all(|(_, ok)| *ok), "requests_seen": contacted}));
+                "requested": want, "result_nodes": keys, "all_ok": res.iter().all(|(_, ok)| *ok), "ok_nodes": res.iter().filter(|(_, ok)| *ok).map(|(k, _)| k.clone()).collect::<Vec<_>>(), "silent": Vec::<usize>::new(), "requests_seen": contacted}));
         }
         for x in nodes {
             x.shutdown();
         }
+    }
+    // one addressed node never answers (every attempt runs into the node timeout): the broadcast still returns one
+    // result per addressed node - a failed one for the silent node - however long that node made it wait
+    for (ai, asg) in [[7u8, 1, 3, 0], [1, 7, 7, 2]].iter().enumerate() {
+        let nodes: Vec<Arc<FakeNode>> = (0..4).map(|_| FakeNode::start()).collect();
+        let mut cfgs = vec![];
+        for (i, node) in nodes.iter().enumerate() {
+            let tags: Vec<&str> = (0..3).filter(|b| asg[i] >> b & 1 == 1).map(|b| tags_all[b]).collect();
+            cfgs.push(NodeConfig::new("127.0.0.1", node.port).unwrap().with_name(format!("n{}", i + 1)).unwrap().with_tags(tags).with_timeout(Duration::from_millis(150)).unwrap());
+        }
+        let opts = FleetOptions { default_timeout: Duration::from_millis(150), retry_policy: RetryPolicy { max_attempts: 2, delay: Duration::from_millis(60) } };
+        let bf = if kind == "blocking" { Some(Fleet::with_options(cfgs.clone(), opts).unwrap()) } else { None };
+        let af = if kind != "blocking" { Some(AsyncFleet::with_options(cfgs.clone(), opts).unwrap()) } else { None };
+        let silent = ai; // node index that never answers
+        nodes[silent].arm("silent_always");
+        for req in [0u8, 1, 3] {
+            let want: Vec<&str> = (0..3).filter(|b| req >> b & 1 == 1).map(|b| tags_all[b]).collect();
+            let before: Vec<u64> = nodes.iter().map(|x| x.served.load(Ordering::SeqCst)).collect();
+            let res: Vec<(String, bool)> = match (&bf, &af) {
+                (Some(f), _) => if req == 3 { f.map_reduce_json("/m", None, &want, |v| v.into_iter().map(|r| (r.node.clone(), r.succeeded())).collect()) } else { f.broadcast_json("/m", Some(&json!({"r": req})), &want).into_iter().map(|(k, v)| (k, v.succeeded())).collect() },
+                (_, Some(f)) => rt.block_on(async { if req == 3 { f.map_reduce_json("/m", None, &want, |v| v.into_iter().map(|r| (r.node.clone(), r.succeeded())).collect()).await } else { f.broadcast_json("/m", Some(&json!({"r": req})), &want).await.into_iter().map(|(k, v)| (k, v.succeeded())).collect() } }),
+                _ => unreachable!(),
+            };
+            let contacted: Vec<u64> = nodes.iter().enumerate().map(|(i, x)| x.served.load(Ordering::SeqCst) - before[i]).collect();
+            let mut keys: Vec<String> = res.iter().map(|(k, _)| k.clone()).collect();
+            keys.sort();
+            let mut oks: Vec<String> = res.iter().filter(|(_, ok)| *ok).map(|(k, _)| k.clone()).collect();
+            oks.sort();
+            n += 1;
+            out.push(&json!({"ev": "broadcast", "kind": kind,
+                "node_tags": (0..4).map(|i| (0..3).filter(|b| asg[i] >> b & 1 == 1).map(|b| tags_all[b]).collect::<Vec<_>>()).collect::<Vec<_>>(),
+                "requested": want, "result_nodes": keys, "all_ok": res.iter().all(|(_, ok)| *ok), "ok_nodes": oks, "silent": [silent + 1], "requests_seen": contacted}));
+        }
+        for x in nodes { x.shutdown(); }
     }
     out.finish();
     util::write_json(&a.str("summary", "/dev/null"), &json!({"broadcasts": n}));
